@@ -166,7 +166,7 @@ def _null_only_exception(f, facts, expr, sr, r):
 PASS_THROUGH = re.compile(
     r'^(core::slice::<impl \[T\]>::(as_ptr|as_mut_ptr)|core::str::<impl str>::(as_bytes|as_ptr)|'
     r'std::ptr::(const_ptr|mut_ptr)::<impl \*(const|mut) T>::(add|cast|cast_mut|cast_const|offset|byte_add)|'
-    r'std::ptr::NonNull::<T>::(as_ptr|add|cast)|std::ptr::NonNull::<\[T\]>::(as_mut_ptr|as_non_null_ptr|cast)|'
+    r'std::ptr::NonNull::<T>::(as_ptr|as_ref|as_mut|add|cast)|std::ptr::NonNull::<\[T\]>::(as_mut_ptr|as_non_null_ptr|cast|as_ref|as_mut)|'
     r'std::slice::from_raw_parts|std::slice::from_raw_parts_mut)$')
 HEAP_ACCESSORS = re.compile(
     r'^(std::vec::Vec::<T, A>::(as_slice|as_mut_slice|as_ptr|as_mut_ptr|spare_capacity_mut)|'
@@ -210,7 +210,11 @@ def prov_classify(f, facts, e, depth=0):
             # delegation to an inner buffer: the receiver must be (a field of) self, any depth
             return 'delegate'
         if PASS_THROUGH.match(name):
-            return prov_classify(f, facts, e[2][0], depth + 1)
+            a0 = e[2][0]
+            # methods taking `&self` on a pointer value (NonNull::as_ref(&ptr)): the pointee is what the pointer *value* names
+            if a0[0] == 'ref' and name.startswith('std::ptr::NonNull::'):
+                a0 = a0[1]
+            return prov_classify(f, facts, a0, depth + 1)
         if HEAP_ACCESSORS.match(name):
             return 'heap'
         if name in ('std::ops::Deref::deref', 'std::ops::DerefMut::deref_mut'):
